@@ -714,6 +714,99 @@ pub fn exec_op(ctx: &mut WorkerCtx, op: &Op) {
             let obj = lock(&ADAPTERS).as_mut().unwrap().remove(a);
             drop(obj);
         }
+        Op::Reent { host, steps } => {
+            set_result(ix, OpResult { t0, t1: now_ns(), sys0, closures: 0, kind: ResKind::None, done: true });
+            let ctxp = ctx as *mut WorkerCtx;
+            // the closure handed to the library: runs the nested steps on this thread, then
+            // yields the properties. SAFETY: `ctx` is not used by this function while the
+            // library call that may invoke the closure is in progress.
+            let run = move || {
+                CLOSURES.fetch_add(1, Ordering::SeqCst);
+                let ctx = unsafe { &mut *ctxp };
+                for st in steps.iter() {
+                    exec_op(ctx, st);
+                }
+            };
+            let pv = |k0: u32, n: u8| -> Vec<(String, String)> { (k0..k0 + n as u32).map(|k| (key(k), val(k))).collect() };
+            let c1 = CLOSURES.load(Ordering::SeqCst);
+            match &**host {
+                Op::AddProps { span, n, k0 } => {
+                    let sp = lock(&SPANS).as_mut().unwrap().remove(span).expect("span slot empty");
+                    sp.add_properties(|| {
+                        run();
+                        pv(*k0, *n)
+                    });
+                    put_span(*span, sp);
+                }
+                Op::LAddProps { n, k0 } => LocalSpan::add_properties(|| {
+                    run();
+                    pv(*k0, *n)
+                }),
+                Op::LWithProps { n, k0 } => {
+                    let taken = match ctx.frames.last_mut() {
+                        Some(RFrame::Local(slot)) => slot.take(),
+                        _ => None,
+                    };
+                    let at = ctx.frames.len() - 1;
+                    if let Some(sp) = taken {
+                        let sp = sp.with_properties(|| {
+                            run();
+                            pv(*k0, *n)
+                        });
+                        let ctx = unsafe { &mut *ctxp };
+                        if let Some(RFrame::Local(slot)) = ctx.frames.get_mut(at) {
+                            *slot = Some(sp);
+                        }
+                    }
+                }
+                Op::Child { l, parents, single, np, k0 } => {
+                    let sp = {
+                        let g = lock(&SPANS);
+                        let m = g.as_ref().unwrap();
+                        if *single {
+                            Span::enter_with_parent(sname(*l), &m[&parents[0]])
+                        } else {
+                            Span::enter_with_parents(sname(*l), parents.iter().map(|p| &m[p]))
+                        }
+                    };
+                    let sp = sp.with_properties(|| {
+                        run();
+                        pv(*k0, *np)
+                    });
+                    put_span(*l, sp);
+                }
+                Op::ChildLocal { l, np, k0 } => {
+                    let sp = Span::enter_with_local_parent(sname(*l)).with_properties(|| {
+                        run();
+                        pv(*k0, *np)
+                    });
+                    put_span(*l, sp);
+                }
+                Op::LEnter { l, np, k0 } => {
+                    let sp = LocalSpan::enter_with_local_parent(lname(*l));
+                    ctx.frames.push(RFrame::Local(None));
+                    let at = ctx.frames.len() - 1;
+                    let sp = sp.with_properties(|| {
+                        run();
+                        pv(*k0, *np)
+                    });
+                    let ctx = unsafe { &mut *ctxp };
+                    if let Some(RFrame::Local(slot)) = ctx.frames.get_mut(at) {
+                        *slot = Some(sp);
+                    }
+                }
+                other => panic!("harness: unsupported re-entrant host {:?}", other),
+            }
+            let ctx = unsafe { &mut *ctxp };
+            let eix = ctx.next_flat;
+            ctx.next_flat += 1;
+            // closures invoked by the host itself (the nested steps account for their own)
+            let host_closures = if CLOSURES.load(Ordering::SeqCst) > c1 { 1 } else { 0 };
+            // the host's own effect (e.g. entering the local span) lies between t0 and now
+            set_result(ix, OpResult { t0, t1: now_ns(), sys0, closures: 0, kind: ResKind::None, done: true });
+            set_result(eix, OpResult { t0, t1: now_ns(), sys0, closures: host_closures, kind: ResKind::None, done: true });
+            return;
+        }
     }
     let t1 = now_ns();
     let _ = t1_override;
